@@ -24,11 +24,13 @@ Definition quasi_kv (kv : Z * num) : pyval * pyval := (PInt (fst kv), PNum (snd 
 Definition n_quasi (q : quasi) : pyval :=
   PDict [(K "quasidistribution_data", PList (map (fun kv => item false (quasi_kv kv)) (q_data q)));
          (K "quasidistribution_shots", of_opt PNum (q_shots q));
-         (K "quasidistribution_stdev_bound", of_opt PNum (q_bound q))].
+         (K "quasidistribution_stdev_bound", of_opt PNum (q_bound q));
+         (K "quasidistribution_num_bits", match q_data q with [] => PNone | _ => PInt (q_width q) end)].
 Definition t_quasi (q : quasi) : json :=
   JObj [("quasidistribution_data", JArr (map (fun kv => JArr [JInt (fst kv); JNum (snd kv)]) (q_data q)));
         ("quasidistribution_shots", t_opt JNum (q_shots q));
-        ("quasidistribution_stdev_bound", t_opt JNum (q_bound q))].
+        ("quasidistribution_stdev_bound", t_opt JNum (q_bound q));
+        ("quasidistribution_num_bits", match q_data q with [] => JNull | _ => JInt (q_width q) end)].
 
 Definition n_circuit (tok : string) : pyval := PDict [(K "qiskit_quantum_circuit", PStr tok)].
 Definition t_circuit (tok : string) : json := JObj [("qiskit_quantum_circuit", JStr tok)].
@@ -86,10 +88,83 @@ Lemma RD_pop p : RD (of_population p) = Ok (n_pop p).
 Proof. replace (RD (of_population p)) with (evqe_default (of_population p)) by (destruct p; reflexivity). apply evqe_default_pop. Qed.
 Lemma RD_complex re im : RD (PComplex re im) = Ok (n_complex re im).
 Proof. reflexivity. Qed.
-Lemma RD_quasi q : RD (of_quasi q) = Ok (n_quasi q).
+(* ---- bitstrings *)
+Definition bstr (k : Z) : string := match bin_str k with Ok b => b | Err _ => "" end.
+
+Lemma bin_str_bstr k : (0 <=? k)%Z = true -> bin_str k = Ok (bstr k).
+Proof. unfold bstr. destruct k; [reflexivity|reflexivity|discriminate]. Qed.
+
+Lemma length_append a b : String.length (a ++ b)%string = (String.length a + String.length b)%nat.
+Proof. induction a as [|c a IH]; simpl; [reflexivity|]. rewrite IH. reflexivity. Qed.
+Lemma length_zeros n : String.length (zeros n) = n.
+Proof. induction n as [|n IH]; simpl; [reflexivity|]. rewrite IH. reflexivity. Qed.
+
+Lemma slen_zfill w b : (slen b <= w)%Z -> slen (zfill w b) = w.
+Proof. intros H. unfold zfill, slen in *. rewrite length_append, length_zeros. lia. Qed.
+
+Lemma parse_from_app acc a b :
+  parse_bits_from acc (a ++ b)%string = do x <- parse_bits_from acc a; parse_bits_from x b.
 Proof.
-  destruct q as [data shots bound]. unfold of_quasi, n_quasi, RD. cbn [q_data q_shots q_bound]. cbn [result_default is_evqe_serializable is_evqe_type].
-  rewrite map_map. reflexivity.
+  revert acc. induction a as [|c a IH]; intros acc; simpl; [reflexivity|].
+  destruct (bit_of c); [apply IH|reflexivity].
+Qed.
+Lemma parse_from_zeros n : parse_bits_from 0 (zeros n) = Ok 0%Z.
+Proof. induction n as [|n IH]; [reflexivity|]. simpl. exact IH. Qed.
+Lemma parse_from_pos p : parse_bits_from 0 (pos_bin p) = Ok (Zpos p).
+Proof.
+  induction p as [p IH|p IH|].
+  - cbn [pos_bin]. rewrite parse_from_app, IH. reflexivity.
+  - cbn [pos_bin]. rewrite parse_from_app, IH. reflexivity.
+  - reflexivity.
+Qed.
+Lemma bstr_nonempty k : bstr k <> EmptyString -> True. Proof. trivial. Qed.
+
+Lemma parse_zfill w k : (0 <=? k)%Z = true -> parse_bits (zfill w (bstr k)) = Ok k.
+Proof.
+  intros Hk. assert (E : parse_bits_from 0 (zfill w (bstr k)) = Ok k).
+  { unfold zfill. rewrite parse_from_app, parse_from_zeros. cbn [bind].
+    destruct k; [reflexivity|apply parse_from_pos|discriminate]. }
+  unfold parse_bits. destruct (zfill w (bstr k)) eqn:Z0; [|exact E].
+  exfalso. assert (L : String.length (zfill w (bstr k)) = 0%nat) by (rewrite Z0; reflexivity).
+  unfold zfill in L. rewrite length_append in L.
+  assert (String.length (bstr k) <> 0)%nat; [|lia].
+  destruct k as [|p|p]; [unfold bstr; simpl; lia| |discriminate Hk].
+  unfold bstr. cbn [bin_str]. destruct p; cbn [pos_bin]; rewrite ?length_append; simpl; lia.
+Qed.
+
+Definition wf_key (w : Z) (kv : Z * num) : bool := (0 <=? fst kv)%Z && fits w (fst kv).
+
+Lemma fits_slen w k : (0 <=? k)%Z = true -> fits w k = true -> (slen (bstr k) <= w)%Z.
+Proof. intros Hk. unfold fits. rewrite (bin_str_bstr k Hk). intros H. apply Z.leb_le. exact H. Qed.
+
+Lemma binary_keys_wf w data :
+  forallb (wf_key w) data = true ->
+  quasi_binary_keys (map quasi_kv data) w = Ok (map (fun kv => zfill w (bstr (fst kv))) data).
+Proof.
+  intros H. unfold quasi_binary_keys. apply mapM_map. intros [k v] Hin. rewrite forallb_forall in H.
+  specialize (H _ Hin). apply andb_true_iff in H as [Hk _]. cbn [fst] in *.
+  unfold key_nat, quasi_kv, PInt. cbn [fst]. replace (k <? 0)%Z with false by (apply Z.leb_le in Hk; symmetry; apply Z.ltb_ge; exact Hk).
+  cbn [bind]. rewrite (bin_str_bstr k Hk). reflexivity.
+Qed.
+
+Lemma quasi_wf_keys q : quasi_wf q = true ->
+  match q_data q with [] => q_width q = 0%Z | _ => forallb (wf_key (q_width q)) (q_data q) = true end.
+Proof.
+  unfold quasi_wf. intros H. apply andb_true_iff in H as [_ H]. destruct (q_data q); [apply Z.eqb_eq; exact H|exact H].
+Qed.
+
+Lemma RD_quasi q : quasi_wf q = true -> RD (of_quasi q) = Ok (n_quasi q).
+Proof.
+  intros Hw. pose proof (quasi_wf_keys q Hw) as Hk.
+  destruct q as [data shots bound w]. unfold of_quasi, n_quasi, RD in *. cbn [q_data q_shots q_bound q_width] in *.
+  cbn [result_default is_evqe_serializable is_evqe_type legacy_width head_flags].
+  change (as_int (PInt w)) with (Ok w : result Z). cbn [bind].
+  change (fun kv : Z * num => (PInt (fst kv), PNum (snd kv))) with quasi_kv.
+  destruct data as [|kv0 r].
+  - reflexivity.
+  - rewrite (binary_keys_wf w _ Hk). cbn [bind map app]. rewrite map_map.
+    cbn [forallb] in Hk. apply andb_true_iff in Hk as [H0 _]. apply andb_true_iff in H0 as [H0 H1].
+    rewrite (slen_zfill w _ (fits_slen w _ H0 H1)). reflexivity.
 Qed.
 Lemma RD_popeval e : RD (of_popeval e) = Ok (n_popeval e).
 Proof.
@@ -99,12 +174,12 @@ Proof.
 Qed.
 
 Lemma RD_opt {A} (of : A -> pyval) (n : A -> pyval) o :
-  (forall x, RD (of x) = Ok (n x)) -> RD (of_opt of o) = Ok (n_opt n o).
-Proof. intros Hx. destruct o; cbn [of_opt n_opt]; [apply Hx|reflexivity]. Qed.
+  (forall x, o = Some x -> RD (of x) = Ok (n x)) -> RD (of_opt of o) = Ok (n_opt n o).
+Proof. intros Hx. destruct o; cbn [of_opt n_opt]; [apply Hx; reflexivity|reflexivity]. Qed.
 
-Lemma RD_result r : RD (of_solver_result r) = Ok (n_result r).
+Lemma RD_result r : opt_wf quasi_wf (r_eigenstate r) = true -> RD (of_solver_result r) = Ok (n_result r).
 Proof.
-  destruct r as [ev aux es best evals gens hist qc]. unfold of_solver_result, n_result.
+  intros Hq.   destruct r as [ev aux es best evals gens hist qc]. unfold of_solver_result, n_result.
   cbn [r_eigenvalue r_aux r_eigenstate r_best r_evaluations r_generations r_history r_circuit].
   unfold RD. cbn [result_default is_evqe_serializable is_evqe_type]. fold RD.
   assert (Eev : match of_scalar ev with PComplex _ _ => RD (of_scalar ev) | _ => Ok (of_scalar ev) end = Ok (n_eig ev)).
@@ -130,8 +205,8 @@ Proof.
   { destruct hist as [l|]; cbn [of_opt n_opt]; [|reflexivity].
     rewrite (mapR_map _ _ n_popeval); [reflexivity|]. intros; apply RD_popeval. }
   rewrite Eh. cbn [bind].
-  rewrite (RD_opt of_quasi n_quasi); [|apply RD_quasi]. cbn [bind].
-  rewrite (RD_opt of_ind n_ind); [|apply RD_ind]. cbn [bind].
+  rewrite (RD_opt of_quasi n_quasi); [|intros q E; subst es; apply RD_quasi; exact Hq]. cbn [bind].
+  rewrite (RD_opt of_ind n_ind); [|intros; apply RD_ind]. cbn [bind].
   rewrite (RD_opt PCircuit n_circuit); [|reflexivity]. reflexivity.
 Qed.
 
@@ -157,7 +232,11 @@ Section Native.
     unfold n_quasi, t_quasi. rewrite dumps_dict. unfold EvqeCodec.K. cbn [mapR member key_str bind].
     rewrite (nat_list d f (fun kv => item false (quasi_kv kv)) (fun kv => JArr [JInt (fst kv); JNum (snd kv)])).
     2:{ intros [k v]. unfold item, quasi_kv. cbn [fst snd]. rewrite dumps_list. cbn [mapR]. rewrite nat_int, nat_num. reflexivity. }
-    cbn [bind]. rewrite !nat_optnum. reflexivity.
+    cbn [bind]. rewrite !nat_optnum. cbn [bind].
+    assert (E : dumps_fuel d f (match q_data q with [] => PNone | _ => PInt (q_width q) end)
+                = Ok (match q_data q with [] => JNull | _ => JInt (q_width q) end)).
+    { destruct (q_data q); [apply dumps_none|apply nat_int]. }
+    rewrite E. reflexivity.
   Qed.
   Lemma nat_popeval e : dumps_fuel d f (n_popeval e) = Ok (t_popeval e).
   Proof.
@@ -206,7 +285,7 @@ Qed.
 (* ---------------------------------------------------------------- decoding *)
 Ltac dec_cbn := unfold JInt; cbn [mapR lmember loads bind fst snd].
 Ltac pairs_cbn := unfold sdict_of_pairs; cbn [fold_left sdict_set fst snd String.eqb Ascii.eqb Bool.eqb].
-Ltac has_cbn := cbn [has existsb fst snd String.eqb Ascii.eqb Bool.eqb orb andb].
+Ltac has_cbn := cbn [has existsb fst snd String.eqb Ascii.eqb Bool.eqb orb andb negb legacy_width head_flags].
 Ltac dget_cbn := cbn [dget fst snd String.eqb Ascii.eqb Bool.eqb bind].
 
 Lemma any_key_in_app a b d : any_key_in (a ++ b) d = any_key_in a d || any_key_in b d.
@@ -249,19 +328,51 @@ Qed.
 Lemma dec_optnum o : loads RH (t_opt JNum o) = Ok (of_opt PNum o).
 Proof. destruct o; reflexivity. Qed.
 
+Lemma fold_width w (data : list (Z * num)) :
+  (0 <= w)%Z -> forallb (wf_key w) data = true -> data <> [] ->
+  fold_right (fun s acc => Z.max (slen s) acc) 0%Z (map (fun kv => zfill w (bstr (fst kv))) data) = w.
+Proof.
+  intros Hw0 H Hne. induction data as [|kv r IH]; [contradiction|].
+  cbn [map fold_right forallb] in *. apply andb_true_iff in H as [H0 Hr]. apply andb_true_iff in H0 as [Hk Hf].
+  rewrite (slen_zfill w _ (fits_slen w _ Hk Hf)).
+  destruct r as [|kv' r']; [cbn; lia|]. rewrite IH; [lia|exact Hr|discriminate].
+Qed.
+
 Lemma dec_quasi q : quasi_wf q = true -> loads RH (t_quasi q) = Ok (of_quasi q).
 Proof.
-  intros Hw. unfold t_quasi. rewrite loads_obj. cbn [mapR lmember bind].
+  intros Hw. pose proof (quasi_wf_keys q Hw) as Hk.
+  unfold quasi_wf in Hw. apply andb_true_iff in Hw as [Hd _].
+  unfold t_quasi. rewrite loads_obj. cbn [mapR lmember bind].
   rewrite (dec_list RH (fun kv => JArr [JInt (fst kv); JNum (snd kv)]) (fun kv => item false (quasi_kv kv))); [|reflexivity].
-  cbn [bind]. rewrite !dec_optnum. cbn [bind]. pairs_cbn. rh_cbn.
+  cbn [bind]. rewrite !dec_optnum. cbn [bind].
+  assert (En : loads RH (match q_data q with [] => JNull | _ => JInt (q_width q) end)
+               = Ok (match q_data q with [] => PNone | _ => PInt (q_width q) end)) by (destruct (q_data q); reflexivity).
+  rewrite En. cbn [bind]. pairs_cbn. rh_cbn.
   unfold parse_quasidistribution. dget_cbn.
-  rewrite <- (map_map quasi_kv (item false)). rewrite py_dict_items.
-  - cbn [bind]. unfold mk_quasi.
-    assert (forallb (fun kv : pyval * pyval => match fst kv with PNum (NInt _) => true | _ => false end) (map quasi_kv (q_data q)) = true) as ->.
-    { apply forallb_forall. intros x Hx. apply in_map_iff in Hx as [kv [<- _]]. reflexivity. }
-    unfold of_quasi. reflexivity.
-  - rewrite map_map. apply forallb_forall. intros x Hx. apply in_map_iff in Hx as [kv [<- _]]. reflexivity.
-  - rewrite map_map. exact Hw.
+  rewrite <- (map_map quasi_kv (item false)). rewrite py_dict_items;
+    [|rewrite map_map; apply forallb_forall; intros x Hx; apply in_map_iff in Hx as [kv [<- _]]; reflexivity|rewrite map_map; exact Hd].
+  cbn [bind legacy_width head_flags]. unfold dget_or_none. dget_cbn.
+  destruct q as [data shots bound w]. cbn [q_data q_shots q_bound q_width] in *.
+  destruct data as [|kv0 r].
+  - subst w. reflexivity.
+  - pose proof Hk as Hk0. cbn [forallb] in Hk0. apply andb_true_iff in Hk0 as [H0 _]. apply andb_true_iff in H0 as [H0k H0f].
+    assert (Hw0 : (0 <= w)%Z) by (pose proof (fits_slen w _ H0k H0f); unfold slen in *; lia).
+    unfold PInt at 1. cbn [format_keys].
+    replace (w <? 0)%Z with false by (symmetry; apply Z.ltb_ge; exact Hw0).
+    rewrite (mapM_map _ quasi_kv (fun kv => (PStr (zfill w (bstr (fst kv))), PNum (snd kv)))).
+    2:{ intros [k v] Hin. rewrite forallb_forall in Hk. specialize (Hk _ Hin). apply andb_true_iff in Hk as [Hkk _]. cbn [fst] in Hkk.
+        unfold key_nat, quasi_kv, PInt. cbn [fst snd].
+        replace (k <? 0)%Z with false by (apply Z.leb_le in Hkk; symmetry; apply Z.ltb_ge; exact Hkk).
+        cbn [bind]. rewrite (bin_str_bstr k Hkk). reflexivity. }
+    cbn [bind]. unfold mk_quasi. cbn [map]. cbn [fst snd].
+    unfold is_bits. rewrite (parse_zfill w _ H0k).
+    change ((PStr (zfill w (bstr (fst kv0))), PNum (snd kv0)) :: map (fun kv : Z * num => (PStr (zfill w (bstr (fst kv))), PNum (snd kv))) r)
+      with (map (fun kv : Z * num => (PStr (zfill w (bstr (fst kv))), PNum (snd kv))) (kv0 :: r)).
+    rewrite (mapM_map _ _ (fun kv : Z * num => zfill w (bstr (fst kv)))); [|reflexivity]. cbn [bind].
+    rewrite (mapM_map _ _ quasi_kv).
+    2:{ intros [k v] Hin. rewrite forallb_forall in Hk. specialize (Hk _ Hin). apply andb_true_iff in Hk as [Hkk _]. cbn [fst snd] in *.
+        rewrite (parse_zfill w k Hkk). reflexivity. }
+    cbn [bind]. rewrite (fold_width w (kv0 :: r) Hw0 Hk); [|discriminate]. reflexivity.
 Qed.
 
 Lemma dec_circuit t : loads RH (t_circuit t) = Ok (PCircuit t).
@@ -339,7 +450,9 @@ Proof.
   - intros e Hw. unfold result_roundtrip, result_encode, result_decode, of_popeval.
     apply (top_roundtrip _ _ _ _ (n_popeval e) (t_popeval e)); [discriminate | apply RD_popeval | intros; apply nat_popeval | apply dec_popeval; exact Hw].
   - intros r Hw. unfold result_roundtrip, result_encode, result_decode, dumps, DEFAULT_FUEL, of_solver_result.
-    rewrite dumps_obj by discriminate. fold (of_solver_result r). fold RD. rewrite RD_result. cbn [bind].
+    rewrite dumps_obj by discriminate. fold (of_solver_result r). fold RD.
+    rewrite RD_result by (unfold result_wf in Hw; apply andb_true_iff in Hw as [Hw _]; apply andb_true_iff in Hw as [Hw _]; apply andb_true_iff in Hw as [_ Hq]; exact Hq).
+    cbn [bind].
     rewrite enc_result. cbn [bind]. apply dec_result. exact Hw.
 Qed.
 
